@@ -56,13 +56,14 @@ class UMNDirHandler(DirHandler):
             # If the parent says it's OK, then let's see if it's
             # a link file.  If yes, process it and return false.
             if file[0] == ".":
-                if not self.vfs.isdir(self.selectorbase + "/" + file):
-                    self.linkentries.extend(
-                        self.processLinkFile(self.selectorbase + "/" + file)
-                    )
-                    return False
-                else:
-                    return False  # A "dot dir" -- ignore.
+                if self.vfs.isfile(self.selectorbase + "/" + file):
+                    try:
+                        self.linkentries.extend(
+                            self.processLinkFile(self.selectorbase + "/" + file)
+                        )
+                    except OSError:
+                        pass  # Unreadable or vanished link file: skip it.
+                return False  # Dot files, "dot dirs", dot specials: never listed.
             return True  # Not a dot file -- return true
         else:
             return False  # Parent returned 0, do the same.
